@@ -33,7 +33,8 @@ MODULE = "Crypto/CryptoCheck.tla"
 CFG = "cfg/CryptoCheck.cfg"
 LENS = [0, 1, 15, 16, 17, 31, 32, 33, 47, 48, 63, 64, 65]
 LENS_T = LENS + [255, 256]
-AADS = [0, 1, 13, 16, 17]
+# 14 and 30: with its 2-byte length prefix the AAD then ends exactly on a CBC-MAC block boundary (RFC 3610 2.2)
+AADS = [0, 1, 5, 13, 14, 16, 17, 30]
 HLEN = {"md5": 16, "sha1": 20, "sha224": 28, "sha256": 32, "sha384": 48, "sha512": 64}
 OPENSSL = ["openssl"]
 PROV = ["-provider", "legacy", "-provider", "default"]
